@@ -1,100 +1,9 @@
-import Utcp.Props.C02
-import Utcp.Props.C18
+import Utcp.Lemmas.RegRun
 /-!
 # C02, over every history — the receiver's register always means what the sender takes it to mean
 -/
 namespace Utcp.Props.C02Hist
 open Utcp Utcp.Gen Utcp.Props
-
-/-- the fields `RConn` reads are the same -/
-structure RegSame (c c' : Conn) : Prop where
-  hist : c'.notify.hist = c.notify.hist
-  inAckSeq : c'.notify.inAckSeq = c.notify.inAckSeq
-  inSeq : c'.notify.inSeq = c.notify.inSeq
-  inPacketId : c'.inPacketId = c.inPacketId
-
-theorem RegSame.refl (c : Conn) : RegSame c c := ⟨rfl, rfl, rfl, rfl⟩
-theorem RegSame.trans {a b c : Conn} (h1 : RegSame a b) (h2 : RegSame b c) : RegSame a c :=
-  ⟨h2.1.trans h1.1, h2.2.trans h1.2, h2.3.trans h1.3, h2.4.trans h1.4⟩
-theorem RegSame.of_keeps {c c' : Conn} (h : Keeps c c') : RegSame c c' := ⟨h.hist, h.inAckSeq, h.inSeq, h.inPacketId⟩
-theorem RegSame.of_sameN {c c' : Conn} (h : SameN c c') : RegSame c c' := ⟨by rw [h.notify], by rw [h.notify], by rw [h.notify], h.inPacketId⟩
-
-theorem RegSame.rconn {c c' : Conn} {tg calls : List (Int × Bool)} (hs : RegSame c c') (h : C02.RConn c tg calls) : C02.RConn c' tg calls :=
-  ⟨by rw [hs.inPacketId]; exact h.reg.congr hs.hist hs.inAckSeq, by rw [hs.inSeq]; exact h.inSeq⟩
-
-theorem sendBunch_regsame (e : Env) (c : Conn) (b : Bunch) : RegSame c (c.sendBunch e b).1 := by
-  have hraw : RegSame c (c.sendRaw e b).1 := by
-    unfold Conn.sendRaw
-    split
-    · exact RegSame.refl _
-    · unfold Conn.sendCommit
-      dsimp only
-      have h1 : RegSame c ((c.getOrCreateChan b false).1.noteClose b) :=
-        (RegSame.of_sameN (getOrCreateChan_sameN c b false)).trans (RegSame.of_sameN (noteClose_sameN _ b))
-      generalize (c.getOrCreateChan b false).1.noteClose b = c1 at h1 ⊢
-      split
-      · exact h1
-      · rename_i x hx
-        generalize (if b.bReliable = true then x.outReliable + 1 else 0 : Int) = seq
-        generalize (if b.bReliable = true then (encodeBunchHeader { b with chSeq := seq }).getD _ else _) = hdr
-        have h2 : RegSame c1 (if b.bReliable = true then c1.setChan b.chIndex { x with outReliable := seq } else c1) := by
-          split
-          · exact RegSame.of_sameN (setChan_sameN _ _ _)
-          · exact RegSame.refl _
-        generalize (if b.bReliable = true then c1.setChan b.chIndex { x with outReliable := seq } else c1) = c2 at h2 ⊢
-        have h4 : RegSame c ((c2.prepareWrite e (hdr.length + b.data.length)).writeInternal e (hdr ++ b.data)).1 :=
-          ((h1.trans h2).trans (RegSame.of_keeps (prepareWrite_keeps e c2 _))).trans (RegSame.of_keeps (writeInternal_keeps e _ _))
-        split
-        · have h5 : RegSame c (((c2.prepareWrite e (hdr.length + b.data.length)).writeInternal e (hdr ++ b.data)).1.emit (.alloc .node)) :=
-            h4.trans (RegSame.of_sameN (emit_sameN _ _))
-          refine h5.trans ?_
-          unfold Conn.addOutRec
-          split
-          · exact RegSame.refl _
-          · exact RegSame.of_sameN (setChan_sameN _ _ _)
-        · exact h4
-  unfold Conn.sendBunch
-  generalize c.sendRaw e b = r at hraw ⊢
-  obtain ⟨c', rr⟩ := r
-  simp only at hraw ⊢
-  split <;> exact hraw
-
-theorem update_regsame (e : Env) (c : Conn) : RegSame c (c.checkTimeout e).updateTail.1 := by
-  have same : ∀ c c' : Conn, c'.notify = c.notify → c'.inPacketId = c.inPacketId → RegSame c c' := fun c c' h1 h2 =>
-    ⟨by rw [h1], by rw [h1], by rw [h1], h2⟩
-  have h1 : RegSame c (c.checkTimeout e) := by
-    unfold Conn.checkTimeout
-    split
-    · exact RegSame.of_sameN (markClose_sameN _ _)
-    · exact RegSame.refl _
-  have hfree : ∀ (c : Conn) (x : Channel), RegSame c (c.freeChan x) := by
-    intro c x
-    unfold Conn.freeChan
-    dsimp only
-    exact (((RegSame.of_sameN (freeNodes_sameN c _)).trans (RegSame.of_sameN (freeNodes_sameN _ _))).trans (RegSame.of_sameN (freeNodes_sameN _ _))).trans (RegSame.of_sameN (emit_sameN _ _))
-  have hd : ∀ c : Conn, RegSame c c.delayClose := by
-    intro c
-    unfold Conn.delayClose
-    split
-    · exact RegSame.refl _
-    · dsimp only
-      have hgen : ∀ (f : Conn → Nat × Channel → Conn), (∀ c p, RegSame c (f c p)) → ∀ (l : List (Nat × Channel)) (c' : Conn), RegSame c' (l.foldl f c') := by
-        intro f hf l
-        induction l with
-        | nil => intro c'; exact RegSame.refl _
-        | cons p rest ih => intro c'; exact (hf c' p).trans (ih _)
-      refine (same c { c with hasChannelClose := false } rfl rfl).trans (hgen _ ?_ _ _)
-      intro c' p
-      split
-      · exact RegSame.refl _
-      · split
-        · exact same _ _ rfl rfl
-        · exact (hfree c' p.2).trans (same _ _ rfl rfl)
-  unfold Conn.updateTail
-  dsimp only
-  split
-  · exact h1.trans (hd _)
-  · exact (h1.trans (hd _)).trans (RegSame.of_sameN (emit_sameN _ _))
 
 /-- the acknowledgement requests recorded so far: strictly increasing packet ids (newest first), none beyond the counter -/
 def Requests (calls : List (Int × Bool)) (pid : Int) : Prop := (calls.map (·.1)).Pairwise (· > ·) ∧ ∀ q ∈ calls, q.1 ≤ pid
